@@ -9,7 +9,6 @@ import (
 	"strings"
 	"testing"
 
-
 	"verifharness/gen"
 	"verifharness/lq"
 	"verifharness/pt"
@@ -53,7 +52,7 @@ type elem struct {
 
 type c15Case struct {
 	Elems      []elem `json:"elems"`
-	Filler     int    `json:"filler,omitempty"` // number of generated filler actions put before Elems (see fillerElems)
+	Filler     int    `json:"filler,omitempty"`  // number of generated filler actions put before Elems (see fillerElems)
 	ManyIdx    int    `json:"manyIdx,omitempty"` // with Filler: every filler action is a valid index action for an index of its own (store cap)
 	CRLF       bool   `json:"crlf,omitempty"`
 	TrailingNL bool   `json:"trailingNL"`
